@@ -23,8 +23,16 @@ InsertAt(s, k, x) == SubSeq(s, 1, k - 1) \o <<x>> \o SubSeq(s, k, Len(s))
 AggOne == [kind : {"agg"}, recv : {"MultiPoint", "LineString", "MultiLineString", "Polygon"},
            vs : {InsertAt(InsidePts, k, x) : k \in 1..4, x \in {<<10, 5>>, <<8, 5>>, <<5, 5>>}},
            polys : {<< << << <<2, 2>>, <<8, 2>>, <<8, 8>>, <<2, 8>> >> >> >>, << << << <<2, 2>>, <<8, 2>>, <<8, 8>>, <<2, 8>>, <<2, 2>> >> >> >>}]
+(* receivers whose extent is inside while one of their vertices is not: the two corners of the receiver's bounding box lie
+   in the polygon, a vertex lies in its hole / in its notch (the corners are vertices of the receiver, or are not) *)
+Holed == << << <<2, 2>>, <<14, 2>>, <<14, 14>>, <<2, 14>> >>, << <<6, 6>>, <<10, 6>>, <<10, 10>>, <<6, 10>> >> >>
+Notched == << << <<2, 2>>, <<14, 2>>, <<14, 14>>, <<10, 14>>, <<10, 6>>, <<6, 6>>, <<6, 14>>, <<2, 14>> >> >>
+AggBox == [kind : {"agg"}, recv : {"MultiPoint", "LineString", "MultiLineString", "Polygon"},
+           vs : {<< <<4, 4>>, <<8, 8>>, <<12, 12>> >>, << <<8, 8>>, <<4, 4>>, <<12, 12>> >>, << <<4, 12>>, <<8, 9>>, <<12, 4>> >>,
+                 << <<4, 12>>, <<12, 4>>, <<8, 8>>, <<5, 5>> >>, << <<4, 4>>, <<12, 12>>, <<12, 4>> >>},
+           polys : {<<Holed>>, <<Notched>>}]
 GenInit == /\ polys = <<>>
-           /\ c \in [kind : {"poly"}, polys : PolyCases, n : {GridN}] \cup AggCases \cup AggOne
+           /\ c \in [kind : {"poly"}, polys : PolyCases, n : {GridN}] \cup AggCases \cup AggOne \cup AggBox
            /\ PrintT(ToJson(c))
 GenSpec == GenInit /\ [][UNCHANGED <<polys, c>>]_<<polys, c>>
 =============================================================================
